@@ -15,8 +15,8 @@ if "--checks" in sys.argv:
     checks = sys.argv[sys.argv.index("--checks") + 1].split(",")
 env = dict(os.environ, GOFLAGS="-mod=mod", GOPROXY="off", GOSUMDB="off", GOTOOLCHAIN="local")
 def sh(c, cwd=None, timeout=3600, e=None):
-    p = subprocess.run(c, shell=True, cwd=cwd, env=e or env, text=True, stdout=subprocess.PIPE, stderr=subprocess.STDOUT, timeout=timeout)
-    return p.returncode, p.stdout
+    p = subprocess.run(c, shell=True, cwd=cwd, env=e or env, stdout=subprocess.PIPE, stderr=subprocess.STDOUT, timeout=timeout)
+    return p.returncode, p.stdout.decode("utf-8", "replace")
 wt, vc = "/tmp/ts_" + name, "/tmp/tv_" + name
 sh("git -C /repo worktree remove --force %s; rm -rf %s %s" % (wt, wt, vc))
 rc, out = sh("git -C /repo worktree add -q --detach %s HEAD" % wt)
